@@ -54,6 +54,14 @@ class RegBench:
             chk.evals += 1
             if o2 != il and not (o2.startswith("ERR") and il.startswith("ERR") and reg.typ != "public-key"):
                 chk.violation(f"the same call with {nm} gives another outcome ({label}): {o2[:50]} instead of {il[:50]}", f"argument-shape reg {nm} {label.split('+')[0].split('/')[0]}", dict(rp, argument_shape=nm, outcome=o2[:300]))
+        if not il.startswith("OK") or self._eq_n % 3 == 0:
+            import webauthn as _w8
+            with impl.substituted(pol.substitute, pol.now):
+                o8 = impl.reused_policy_containers(_w8.verify_registration_response, pol, val, reg.cdj, impl.pr_verified_reg)
+            chk.evals += 2
+            if o8 is not None and o8 != il:
+                chk.violation(f"the call made with the RP's long-lived policy lists (edited in place since an earlier call) gives another outcome than with fresh lists ({label}): {o8[:50]} instead of {il[:50]}",
+                              f"policy-container-reuse reg {label.split('+')[0].split('/')[0]}", dict(rp, reused_containers=True, outcome=o8[:300]))
         # policy switches that have their documented defaults (presence required, verification not required) may as well be left out - each one alone, or both
         defaults = {"require_user_presence": True, "require_user_verification": False}
         at_default = [k for k, dv in defaults.items() if (pol.require_up if k == "require_user_presence" else pol.require_uv) is dv]
